@@ -38,7 +38,7 @@ Definition EIT (size : nat) (es : list electrode) : list (list F) := run_writes 
 Definition eit_col (size : nat) (e : electrode) : list F := run_col size (eit_writes_of size 0 e) 0.
 
 (* ---- SurfSourceMat ---- *)
-Record bmesh := mkBMesh { bm_id : nat; bm_verts : list nat; bm_tris : list nat }.       (* vertex indices, triangle indices *)
+Record bmesh := mkBMesh { bm_id : nat; bm_verts : list nat; bm_tris : list nat; bm_barrier : bool }.   (* vertex indices, triangle indices, Mesh::current_barrier() *)
 Record bomesh := mkBOMesh { bo_mesh : bmesh; bo_orient : Z }.
 Record bbound := mkBBound { bb_inside : bool; bb_meshes : list bomesh }.
 Variable ST : Type.                                   (* a triangle of the source mesh (with its geometry) *)
@@ -63,7 +63,9 @@ Definition ssm_writes (cond : F) (bounds : list bbound) (nsv : nat) (src : list 
   let L := fdiv o (fopp o (f1 o)) cond in
   flat_map (fun b => let factorN := if bb_inside b then K else fopp o K in
     flat_map (fun om => let coeffN := factorN * fofZ o (bo_orient om) in
-       n_writes (bo_mesh om) nsv src coeffN ++ d_writes (bo_mesh om) src (coeffN * L)) (bb_meshes b)) bounds.
+       n_writes (bo_mesh om) nsv src coeffN ++
+       (* after fix: no D block for a current barrier (its triangles have no row) *)
+       (if bm_barrier (bo_mesh om) then [] else d_writes (bo_mesh om) src (coeffN * L))) (bb_meshes b)) bounds.
 Definition SSM (size : nat) (cond : F) (bounds : list bbound) (nsv : nat) (src : list ST) : list (list F) :=
   run_writes size nsv (ssm_writes cond bounds nsv src).
 End SurfEIT.
